@@ -25,6 +25,12 @@ Theorem gen_CleanPath_total : forall p, gen_CleanPath p <> Panic /\ gen_CleanPat
 Proof. exact CleanPath_total. Qed.
 Print Assumptions gen_CleanPath_total.
 
+(* the result of the generated CleanPath is at most one byte longer than its argument *)
+Theorem gen_CleanPath_length : forall p o,
+  gen_CleanPath p = Ret o -> (List.length o <= S (List.length p))%nat.
+Proof. exact CleanPath_length. Qed.
+Print Assumptions gen_CleanPath_length.
+
 (* the simulation itself does not use the correctness proof of the model: whenever the model's fuel
    suffices, the generated code computes the model's outcome, panics included *)
 Theorem gen_CleanPath_simulates_model : forall p,
